@@ -147,21 +147,21 @@ theorem Grow.closed {σ σ₁ σ₂ : St} {o₁ o : List Ans} {hd : Scope}
 
 /-! ### primitives -/
 
-theorem read_pure (σ : St) (t : Tok) {inF : Bool} {env : Env} (r : Rel σ.stack σ.fdepth inF env) :
-    Pure σ (σ.read t) (sRead inF env t) := by
+theorem read_pure (σ : St) (t : Tok) {inF : Bool} {env : Env} (r : Rel σ.stack σ.fdepth inF env)
+    (root : Bool := false) : Pure σ (σ.read t true root) (sRead inF env t root) := by
   unfold St.read sRead
   by_cases h : σ.fdepth = 0 ∧ t.text = "..."
   · have h' : inF = false ∧ t.text = "..." := ⟨r.fd.mp h.1, h.2⟩
     simp only [h, h', and_self, if_true]
     exact Pure.refl σ
   · have h' : ¬ (inF = false ∧ t.text = "...") := fun hh => h ⟨r.fd.mpr hh.1, hh.2⟩
-    have hs : Step σ (σ.read t) := Safe.read_step σ t
+    have hs : Step σ (σ.read t true root) := Safe.read_step σ t root
     unfold St.read at hs
     simp only [h, if_false] at hs
     simp only [h, h', if_false]
     refine ⟨rfl, rfl, ?_, hs⟩
     rw [log_push]
-    by_cases hk : NameFilter.read t.text = true <;> simp [Ref.ans, Ref.kept, localBinding_eq, r.env, hk]
+    by_cases hk : NameFilter.read t.text = true <;> cases root <;> simp [Ref.ans, Ref.kept, localBinding_eq, r.env, hk]
 
 theorem define_grow (σ : St) (e : Entry) (ne : σ.stack ≠ [])
     (hbar : e.info = none → e.name = "...") (hnh : ∀ d, e.info ≠ some (d, true)) :
@@ -393,6 +393,21 @@ theorem eagerV_pure (σ : St) (v : Var) (r : Rel σ.stack σ.fdepth inF env) :
     simpa [eagerV, eV] using h1.trans h2
 end
 end Eager
+
+theorem eagerPT_pure {inF : Bool} {env : Env} (σ : St) (p : Prefix) (r : Rel σ.stack σ.fdepth inF env) :
+    Pure σ (eagerPT σ p) (ePT inF env p) := by
+  cases p with
+  | name t => exact read_pure σ t r true
+  | expr e => exact eagerE_pure σ e r
+
+theorem eagerVT_pure {inF : Bool} {env : Env} (σ : St) (v : Var) (r : Rel σ.stack σ.fdepth inF env) :
+    Pure σ (eagerVT σ v) (eVT inF env v) := by
+  cases v with
+  | name t => exact read_pure σ t r true
+  | expr _ p ss =>
+    have h1 := eagerPT_pure σ p r
+    have h2 := eagerSs_pure _ ss (h1.rel r)
+    exact h1.trans h2
 
 /-! ### what the induction carries -/
 
@@ -650,13 +665,13 @@ theorem func_case (sp : Span) (name : FuncName) (body : FuncBody) (hbody : BodyO
   | nil => exact (Pure.refl σ).block r rfl
   | cons base more =>
     -- the name itself
-    have hname : ∃ σ₁, σ₁ = (if (!more.isEmpty || method.isSome) = true then σ.read base else (σ.read base false).hoist base) ∧
-        Grow σ σ₁ (if (!more.isEmpty || method.isSome) = true then sRead inF env base else sAssign env base) ∧
+    have hname : ∃ σ₁, σ₁ = (if (!more.isEmpty || method.isSome) = true then σ.read base true true else (σ.read base false).hoist base) ∧
+        Grow σ σ₁ (if (!more.isEmpty || method.isSome) = true then sRead inF env base true else sAssign env base) ∧
         Rel σ₁.stack σ₁.fdepth inF env := by
       refine ⟨_, rfl, ?_⟩
       by_cases hl : (!more.isEmpty || method.isSome) = true
       · simp only [hl, if_true]
-        exact (read_pure σ base r).block r rfl
+        exact (read_pure σ base r true).block r rfl
       · simp only [hl]
         exact readHoist_grow σ base r
     obtain ⟨σ₁, hσ₁, g1, r1⟩ := hname
@@ -672,7 +687,7 @@ theorem func_case (sp : Span) (name : FuncName) (body : FuncBody) (hbody : BodyO
       refine ⟨?_, inner.rel r1⟩
       have := g1.pure inner
       exact this.cast (by
-        show _ = (if (!more.isEmpty || (some m).isSome) = true then sRead inF env base else sAssign env base) ++ sBody env (some m) body
+        show _ = (if (!more.isEmpty || (some m).isSome) = true then sRead inF env base true else sAssign env base) ++ sBody env (some m) body
         rw [sBody_self])
 
 
@@ -691,9 +706,9 @@ theorem assignTargets_grow (vars : VarList) (es : ExprList) (σ : St) (inF : Boo
         obtain ⟨g2, r2⟩ := assignTargets_grow rest .nil _ inF env rg
         exact ⟨(g.trans g2).cast (by show _ = [] ++ sAssign env n ++ sTargets inF env rest .nil; simp), r2⟩
       | expr vsp p ss =>
-        have h := eagerV_pure σ (.expr vsp p ss) r
+        have h := eagerVT_pure σ (.expr vsp p ss) r
         obtain ⟨g2, r2⟩ := assignTargets_grow rest .nil _ inF env (h.rel r)
-        exact ⟨(h.thenGrow g2).cast (by show _ = [] ++ eV inF env (.expr vsp p ss) ++ sTargets inF env rest .nil; simp), r2⟩
+        exact ⟨(h.thenGrow g2).cast (by show _ = [] ++ eVT inF env (.expr vsp p ss) ++ sTargets inF env rest .nil; simp), r2⟩
     | cons e es' =>
       have he := eagerE_pure σ e r
       cases v with
@@ -702,9 +717,9 @@ theorem assignTargets_grow (vars : VarList) (es : ExprList) (σ : St) (inF : Boo
         obtain ⟨g2, r2⟩ := assignTargets_grow rest es' _ inF env rg
         exact ⟨((he.thenGrow g).trans g2).cast (by show _ = eE inF env e ++ sAssign env n ++ sTargets inF env rest es'; simp), r2⟩
       | expr vsp p ss =>
-        have h := eagerV_pure _ (.expr vsp p ss) (he.rel r)
+        have h := eagerVT_pure _ (.expr vsp p ss) (he.rel r)
         obtain ⟨g2, r2⟩ := assignTargets_grow rest es' _ inF env ((he.trans h).rel r)
-        exact ⟨((he.trans h).thenGrow g2).cast (by show _ = eE inF env e ++ eV inF env (.expr vsp p ss) ++ sTargets inF env rest es'; simp), r2⟩
+        exact ⟨((he.trans h).thenGrow g2).cast (by show _ = eE inF env e ++ eVT inF env (.expr vsp p ss) ++ sTargets inF env rest es'; simp), r2⟩
 
 abbrev VsOK (vs : VarList) : Prop := DescOK (fun σ => descVs σ vs) (fun inF env => dVs inF env vs)
 
@@ -928,8 +943,8 @@ theorem log_answers (σ : St) : σ.log.filterMap Ans.readOf = σ.answers := by
   | nil => rfl
   | cons r rest ih =>
     simp only [List.filter_cons]
-    cases hc : r.counted <;> cases hk : r.kept <;> cases hd : r.decl <;> cases hw : r.write <;>
-      simp [List.filterMap_cons, ih, Ref.ans, Ans.readOf, hd, hw]
+    cases hc : r.counted <;> cases hk : r.kept <;> cases hd : r.decl <;> cases hw : r.write <;> cases hr : r.root <;>
+      simp [List.filterMap_cons, ih, Ref.ans, Ans.readOf, hd, hw, hr]
 
 /-- the declarations among the answers -/
 theorem log_shadows (σ : St) : σ.log.filterMap Ans.declOf = σ.shadows := by
@@ -938,8 +953,8 @@ theorem log_shadows (σ : St) : σ.log.filterMap Ans.declOf = σ.shadows := by
   | nil => rfl
   | cons r rest ih =>
     simp only [List.filter_cons]
-    cases hc : r.counted <;> cases hk : r.kept <;> cases hd : r.decl <;> cases hw : r.write <;>
-      simp [List.filterMap_cons, ih, Ref.ans, Ans.declOf, hd, hw]
+    cases hc : r.counted <;> cases hk : r.kept <;> cases hd : r.decl <;> cases hw : r.write <;> cases hr : r.root <;>
+      simp [List.filterMap_cons, ih, Ref.ans, Ans.declOf, hd, hw, hr]
 
 /-- the global assignments among the answers -/
 theorem log_globalAssigns (σ : St) : σ.log.filterMap Ans.assignOf = σ.globalAssigns := by
@@ -948,8 +963,18 @@ theorem log_globalAssigns (σ : St) : σ.log.filterMap Ans.assignOf = σ.globalA
   | nil => rfl
   | cons r rest ih =>
     simp only [List.filter_cons]
-    cases hc : r.counted <;> cases hk : r.kept <;> cases hd : r.decl <;> cases hw : r.write <;>
-      simp [List.filterMap_cons, ih, Ref.ans, Ans.assignOf, hd, hw]
+    cases hc : r.counted <;> cases hk : r.kept <;> cases hd : r.decl <;> cases hw : r.write <;> cases hr : r.root <;>
+      simp [List.filterMap_cons, ih, Ref.ans, Ans.assignOf, hd, hw, hr]
+
+/-- the value uses among the answers -/
+theorem log_valueUses (σ : St) : σ.log.filterMap Ans.valueOf = σ.valueUses := by
+  simp only [St.log, St.valueUses]
+  induction σ.refs with
+  | nil => rfl
+  | cons r rest ih =>
+    simp only [List.filter_cons]
+    cases hc : r.counted <;> cases hk : r.kept <;> cases hd : r.decl <;> cases hw : r.write <;> cases hr : r.root <;>
+      simp [List.filterMap_cons, ih, Ref.ans, Ans.valueOf, hd, hw, hr]
 
 theorem mem_answers (σ : St) (t : Nat) (d : Option Nat) :
     (t, d) ∈ σ.answers ↔ ∃ r ∈ σ.refs, r.counted = true ∧ r.kept = true ∧ r.decl = false ∧ r.write = false ∧
